@@ -222,3 +222,11 @@ func init() {
 		return iface{}
 	}
 }
+
+func init() {
+	// sync.WaitGroup: bookkeeping only (worker loops are run in place by harness stubs)
+	symExternals["(*sync.WaitGroup).Add"] = func(fr *frame, args []value) value { return nil }
+	symExternals["(*sync.WaitGroup).Done"] = func(fr *frame, args []value) value { return nil }
+	symExternals["(*sync.WaitGroup).Wait"] = func(fr *frame, args []value) value { return nil }
+	symExternals["internal/synctest.IsInBubble"] = func(fr *frame, args []value) value { return false }
+}
